@@ -494,8 +494,8 @@ func rulePairSeq(p *Prog, r *Report) {
 			r.Bad(rule, n, construct, p.Pos(mu.Pos()), "a sequence number is handed out without advancing the counter: two siblings get the same position")
 		}
 	}
-	if nSeq < 6 {
-		r.Add(&Ob{Rule: rule + ".floor", Func: n, Construct: "instances<6", Status: Undecided, Why: fmt.Sprintf("only %d sequence-number stores found (elements, text, comments, directives, processing instructions: at least 6 expected)", nSeq)})
+	if nSeq < 3 {
+		r.Add(&Ob{Rule: rule + ".floor", Func: n, Construct: "instances<3", Status: Undecided, Why: fmt.Sprintf("only %d sequence-number stores found (elements, text and markup items: at least 3 expected)", nSeq)})
 	}
 	if nAttr < 1 {
 		r.Add(&Ob{Rule: rule + ".floor", Func: n, Construct: "attributes<1", Status: Undecided, Why: "no attribute numbering site found"})
